@@ -194,7 +194,8 @@ func (QuantityReporter).Process returns (err)
 func (QuantityReporter).Flush returns (err)
   props C17 C08 C05
   requires @args r.accumulator != nil && r.output != nil
-  modifies *
+  calluse SliceStable#1 tuples
+  calluse SliceStable#2 tuples
   modifies ghost(bufSticky, sinkFailed, sinkPend, prLen, prSink, prArg, prArgs)
   ensures @sink [C17] BufStep(r.output)
   ensures @reports-loss [C17] (err != nil) == bufSticky[r.output] && (err == nil ==> sinkPend[bufSink[r.output]] == 0)
@@ -240,4 +241,106 @@ func (ElementReporter).Flush returns (err)
   ensures @reports-loss [C17] err == nil ==> !bufSticky[er.output] || old(bufSticky[er.output])
   ensures @flushed [C17] err == nil ==> !bufSticky[er.output] && sinkPend[bufSink[er.output]] == 0
   loop 1 { invariant @sink er == old(er) && BufStep(er.output) && bufSticky[er.output] == old(bufSticky[er.output]) }
+
+// ---------------------------------------------------------------------------------------------
+// the report commands
+// ---------------------------------------------------------------------------------------------
+
+// the callback ReportUnresolved hands to WithResolvedDatabase
+func ReportUnresolved$1 returns (err)
+  props C08 C09 C10 C17
+  refines utils.ResolvedCallback
+  modifies *
+  captured ruc.ReporterConfig.Output != nil && !typeis(ruc.ReporterConfig.Output, "*bufio.Writer") && !typeis(ruc.ReporterConfig.Output, "*encoding/csv.Writer")
+  defines CbOut(self) == payload(ruc.ReporterConfig.Output) && CbLog(self) == payload(logStream) && CbCC(self) == ruc.ParserConfig.CommentChar
+
+func ReportUnresolved returns (err)
+  props C08 C09 C10 C17
+  requires @sink ruc.ReporterConfig.Output != nil && !typeis(ruc.ReporterConfig.Output, "*bufio.Writer") && !typeis(ruc.ReporterConfig.Output, "*encoding/csv.Writer") && TreeInv()
+  modifies *
+  modifies ghost(cbLen, cbErr, cbNode, cbStop, cbRet, cbLineNo, cbLine, cbHeader, cbElems, cbNElems, scRd, scPos, privLo, evOf, accKey, accP, accN, accH, bufSink, bufSticky, sinkFailed, sinkPend, prLen, prSink, prArg, prArgs, tnodes, tdepth, tmax, tmapOf)
+  let out := payload(ruc.ReporterConfig.Output)
+  let lrd := payload(logStream)
+  let drd := payload(dbStream)
+  let cc := ruc.ParserConfig.CommentChar
+  ensures @book-unreadable [C10] err == nil ==> !RdFailed(drd)
+  ensures @book-malformed [C09] err == nil ==> (forall i int :: {RdLine(drd, i)} 0 <= i && i < RdN(drd) ==> !Malformed(drd, i, cc))
+  ensures @log-unreadable [C10] err == nil ==> !RdFailed(lrd)
+  ensures @log-malformed [C09] err == nil ==> (forall i int :: {RdLine(lrd, i)} 0 <= i && i < RdN(lrd) ==> !Malformed(lrd, i, cc))
+  ensures @reports-loss [C17] err == nil ==> (sinkFailed[out] ==> old(sinkFailed[out])) && sinkPend[out] == 0
+
+// the callback ReportTotals hands to WithResolvedDatabase
+func ReportTotals$1 returns (err)
+  props C08 C09 C10 C17
+  refines utils.ResolvedCallback
+  modifies *
+  captured rqc.ReporterConfig.Output != nil && !typeis(rqc.ReporterConfig.Output, "*bufio.Writer") && !typeis(rqc.ReporterConfig.Output, "*encoding/csv.Writer")
+  defines CbOut(self) == payload(rqc.ReporterConfig.Output) && CbLog(self) == payload(logStream) && CbCC(self) == rqc.ParserConfig.CommentChar
+
+func ReportTotals returns (err)
+  props C08 C09 C10 C17
+  requires @sink rqc.ReporterConfig.Output != nil && !typeis(rqc.ReporterConfig.Output, "*bufio.Writer") && !typeis(rqc.ReporterConfig.Output, "*encoding/csv.Writer") && TreeInv()
+  modifies *
+  modifies ghost(cbLen, cbErr, cbNode, cbStop, cbRet, cbLineNo, cbLine, cbHeader, cbElems, cbNElems, scRd, scPos, privLo, evOf, accKey, accP, accN, accH, bufSink, bufSticky, sinkFailed, sinkPend, prLen, prSink, prArg, prArgs, tnodes, tdepth, tmax, tmapOf)
+  let out := payload(rqc.ReporterConfig.Output)
+  let lrd := payload(logStream)
+  let drd := payload(dbStream)
+  let cc := rqc.ParserConfig.CommentChar
+  ensures @book-unreadable [C10] err == nil ==> !RdFailed(drd)
+  ensures @book-malformed [C09] err == nil ==> (forall i int :: {RdLine(drd, i)} 0 <= i && i < RdN(drd) ==> !Malformed(drd, i, cc))
+  ensures @log-unreadable [C10] err == nil ==> !RdFailed(lrd)
+  ensures @log-malformed [C09] err == nil ==> (forall i int :: {RdLine(lrd, i)} 0 <= i && i < RdN(lrd) ==> !Malformed(lrd, i, cc))
+  ensures @reports-loss [C17] err == nil ==> (sinkFailed[out] ==> old(sinkFailed[out])) && sinkPend[out] == 0
+
+func ReportQuantity returns (err)
+  props C08 C09 C10 C17
+  requires @sink rqc.ReporterConfig.Output != nil && !typeis(rqc.ReporterConfig.Output, "*bufio.Writer") && !typeis(rqc.ReporterConfig.Output, "*encoding/csv.Writer") && TreeInv()
+  modifies *
+  modifies ghost(cbLen, cbErr, cbNode, cbStop, cbRet, cbLineNo, cbLine, cbHeader, cbElems, cbNElems, scRd, scPos, privLo, evOf, accKey, accP, accN, accH, bufSink, bufSticky, sinkFailed, sinkPend, prLen, prSink, prArg, prArgs, tnodes, tdepth, tmax, tmapOf)
+  let out := payload(rqc.ReporterConfig.Output)
+  let lrd := payload(logStream)
+  let cc := rqc.ParserConfig.CommentChar
+  ensures @log-unreadable [C10] err == nil ==> !RdFailed(lrd)
+  ensures @log-malformed [C09] err == nil ==> (forall i int :: {RdLine(lrd, i)} 0 <= i && i < RdN(lrd) ==> !Malformed(lrd, i, cc))
+  ensures @reports-loss [C17] err == nil ==> (sinkFailed[out] ==> old(sinkFailed[out])) && sinkPend[out] == 0
+
+// report element-total: the recipes are visited in strictly increasing order of their names, so the list handed to
+// the stable sort (by amount) is a function of the resolved book alone (C05)
+func ReportElement returns (err)
+  props C08 C09 C10 C17 C05
+  requires @sink rec.ReporterConfig.Output != nil && !typeis(rec.ReporterConfig.Output, "*bufio.Writer") && !typeis(rec.ReporterConfig.Output, "*encoding/csv.Writer")
+  calluse Resolve#1 any
+  calluse SliceStable#1 elements
+  calluse SliceStable#2 elements
+  modifies *
+  modifies ghost(cbLen, cbErr, cbNode, cbStop, cbRet, cbLineNo, cbLine, cbHeader, cbElems, cbNElems, scRd, scPos, privLo, evOf, accKey, accP, accN, accH, bufSink, bufSticky, sinkFailed, sinkPend, prLen, prSink, prArg, prArgs, tnodes, tdepth, tmax, tmapOf)
+  let out := payload(rec.ReporterConfig.Output)
+  let drd := payload(dbStream)
+  let cc := rec.ParserConfig.CommentChar
+  ensures @book-unreadable [C10] err == nil ==> !RdFailed(drd)
+  ensures @book-malformed [C09] err == nil ==> (forall i int :: {RdLine(drd, i)} 0 <= i && i < RdN(drd) ==> !Malformed(drd, i, cc))
+  ensures @reports-loss [C17] err == nil ==> (sinkFailed[out] ==> old(sinkFailed[out])) && sinkPend[out] == 0
+  loop 1 {
+    invariant @count len(names) == #it && arr(names) != 0 && fresh(arr(names)) && nl == at(pre1, nl) && mapval(nl) == at(pre1, mapval(nl)) && (forall k string :: {nl[k]} k in nl ==> nl[k] != nil)
+    invariant @copied forall j int :: {names[j]} 0 <= j && j < #it ==> names[j] == #ord[j]
+    invariant @untouched bufSink == old(bufSink) && bufSticky == old(bufSticky) && sinkFailed == old(sinkFailed) && sinkPend == old(sinkPend)
+  }
+  ghost after call 1 Strings {
+    unfold SortedStr(elems(names), len(names))
+    lassert @keys-perm forall p int :: {names[p]} 0 <= p && p < len(names) ==> names[p] in nl && names[p] == at(call, elems(names))[PermBack(at(call, elems(names)), elems(names), p)]
+    assert @keys forall p int :: {names[p]} 0 <= p && p < len(names) ==> names[p] in nl
+    unfold StrictStr(elems(names), len(names))
+    assert @deterministic-order [C05] StrictStr(elems(names), len(names))
+    forget call
+  }
+  loop 2 {
+    invariant @inv nl == at(pre2, nl) && mapval(nl) == at(pre2, mapval(nl)) && (forall k string :: {nl[k]} k in nl ==> nl[k] != nil) && (arr(list) == 0 || fresh(arr(list))) && arr(names) != arr(list) && fresh(arr(names))
+    invariant @keys forall p int :: {names[p]} 0 <= p && p < len(names) ==> names[p] in nl
+    invariant @untouched bufSink == old(bufSink) && bufSticky == old(bufSticky) && sinkFailed == old(sinkFailed) && sinkPend == old(sinkPend)
+  }
+  loop 3 {
+    invariant @inv nl == at(pre2, nl) && mapval(nl) == at(pre2, mapval(nl)) && (forall k string :: {nl[k]} k in nl ==> nl[k] != nil) && (arr(list) == 0 || fresh(arr(list))) && arr(names) != arr(list) && fresh(arr(names))
+    invariant @keys forall p int :: {names[p]} 0 <= p && p < len(names) ==> names[p] in nl
+    invariant @untouched bufSink == old(bufSink) && bufSticky == old(bufSticky) && sinkFailed == old(sinkFailed) && sinkPend == old(sinkPend)
+  }
 @*/
